@@ -954,8 +954,17 @@ impl Sim {
             }
         }
         self.check_silence(ctx, step, None);
-        if step.events.iter().any(|e| matches!(e, Ev::Output { .. } | Ev::Rto { .. })) && self.on(M_C05 | M_C11) {
-            self.viol(ctx, M_C05, "recv:unexpected-output-or-timer-event", "on_buffer_recv emitted a packet or a timer notification".into());
+        // Today on_buffer_recv emits neither packets nor timer notifications, but no property says
+        // it must not: a notification naming a request that still awaits a response is harmless
+        // (check_silence above has already judged any that names a finished one).  A packet emitted
+        // here would put the transmission model out of step, so such a history is not judged any
+        // further (counted; the minimum-relevance counters notice if that became the rule).
+        if step.events.iter().any(|e| matches!(e, Ev::Rto { .. })) {
+            ctx.count("recv.suspicion.timer-notification-after-on-buffer-recv");
+        }
+        if step.events.iter().any(|e| matches!(e, Ev::Output { .. })) {
+            ctx.count("recv.suspicion.packet-emitted-by-on-buffer-recv:history-abandoned");
+            self.dead = true;
         }
         if rejected {
             ctx.count("recv.rejected");
